@@ -102,7 +102,7 @@ CHECKS.update({
     "C01": dict(
         level="model_checking", ref="5 (C01), 3.1, 3.6",
         technique="TLC: liveness TerminatesDone + NoHang of the engine machine over the world family (and the demonstration that NoHang fails as soon as a hit may end past its text); Session.tla (Call, Return, five Views; no raise / timeout action) validates every recorded session",
-        text="Engine termination is model-checked (weak fairness, self-reproducing worlds, K from -1 to 5 across tiers); it reduces to the decoder-side obligation of in-bounds spans, which the out-of-bounds configuration shows to be necessary. On the implementation side ~26k (quick) / ~600k (thorough) sessions - every string over each conversion site's critical alphabet behind its trigger prefixes (shell carets/quotes/line ends/parentheses, XML references, base64/hex malformations, quote soup), xor keys 0..999 in three forms, code points 0..99999, a PE-header grid, byte arrays with periodic xor keys, repository literals under mutation, token soup, binary garbage, depth limits of every sign - run under a process-level watchdog (a regular expression stuck in C code is killed and reported); each session must be a complete behaviour of Session.tla; suspected hangs are re-confirmed alone with 60 s.",
+        text="Engine termination is model-checked (weak fairness, self-reproducing worlds, K from -1 to 5 across tiers); it reduces to the decoder-side obligation of in-bounds spans, which the out-of-bounds configuration shows to be necessary. On the implementation side ~26k (quick) / ~600k (thorough) sessions - every string over each conversion site's critical alphabet behind its trigger prefixes (shell carets/quotes/line ends/parentheses, XML references, base64/hex malformations, quote soup), xor keys 0..999 in three forms, code points 0..99999, a PE-header grid, byte arrays with periodic xor keys, repository literals under mutation, token soup, binary garbage, depth limits of every sign - run under a process-level watchdog (a regular expression stuck in C code is killed and reported); each session must be a complete behaviour of Session.tla; suspected hangs are re-confirmed alone with 60 s; after 40 sessions that do not return the run stops and reports what it has.",
         note="inputs <= 4 KiB; Python recursion-limit nesting (about 1000 layers) not explored; " + TRUST,
     ),
     "C03": dict(
@@ -114,19 +114,19 @@ CHECKS.update({
         level="exploration", ref="5 (C10), 3.5",
         technique=_NET + " on every network.* node of recorded scans (network token soup, repository literals, URL lattice)",
         text="Output condition monitored on every network.ip / domain / email / url node (with its parent type, to tell free-text indicators from URL / UNC hosts): canonical dotted quad and value = covered text in free text; name + registered TLD, charset and length >= 7 in free text; e-mail shape; scheme and non-empty host; value = NormalizePercent(covered) and the escape.percent label iff shortened.",
-        note="regular-expression languages are sampled; " + TRUST,
+        note="registered TLD = the table as shipped at the pinned commit (spec/tlds_pinned.json); regular-expression languages are sampled; " + TRUST,
     ),
     "C11": dict(
         level="exploration", ref="5 (C11), 3.5",
         technique=_NET + " on generated indicator instances embedded between neutral delimiters at rotating offsets; TLC decides domain membership (e.g. CanonicalQuad and not .0/.255/all-zero; FreeDomain; UrlShape) and requires a node of the documented type, canonical value and exact absolute span",
         text="Instances: IPv4 octet boundary values, domains with label lengths 2..63 under registered and unregistered TLDs (7-character minimum), the URL component lattice, e-mail addresses, Windows path lattice (drive / UNC / device prefixes x dot segments x file names), POSIX paths, .exe / .dll names in three cases, CreateObject with nested parentheses, structurally valid PE files with 1..3 sections with leading junk and trailing bytes. 8 prefixes x 6 suffixes rotate over the instances.",
-        note="documented false-positive shapes are not generated; regular-expression languages are sampled; " + TRUST,
+        note="documented false-positive shapes (Net.FalsePositiveDomain, Net.IpContextSuppressed; tables pinned in spec/domain_fpos_pinned.json) are generated on both sides of every rule and decided by TLC; registered TLD = pinned snapshot spec/tlds_pinned.json; regular-expression languages are sampled; " + TRUST,
     ),
     "C12": dict(
         level="model_checking", ref="5 (C12), 3.4",
         technique="TLC: UrlMC.tla - the offset walk of parse_url / parse_authority as a machine vs the span specification over 972 URLs (the pinned-commit variant must fail); NetTrace.tla recomputes the complete child list (type, span, decoded value, label) of every URL node and value / label / type / children of every Windows-path node",
         text="Every URL node met in scans and every point of the component lattice (5 schemes x 8 userinfo forms x 15 hosts incl. inet_aton spellings x 4 ports x dot-segment paths x 4 queries x 4 fragments) is judged: UrlSplit / AuthSplit give the spans, PercentDecode / DotSegments / InetAton (limb arithmetic) the values and labels. Windows paths: ntpath.splitroot and the normpath loop are transcribed (WinNorm); type, dotpath label, host child at 2 / 8 and file-name child are recomputed.",
-        note="IPv6 hosts and hosts with residual percent-escapes are outside the judged domain; " + TRUST,
+        note="hosts with residual percent-escapes are outside the judged domain; of an IPv6 host everything but the normalisation of the address itself is judged; " + TRUST,
     ),
 })
 
@@ -134,7 +134,7 @@ CHECKS.update({
     "C02": dict(
         level="exploration", ref="5 (C02), 3.6",
         technique="TLA+ oracle (Layers.tla over Codec.tla / StringOps.tla): from a proposed (stack, payload, surroundings) TLC re-encodes the input, decides per layer whether the wrapped text is in the documented domain, and computes the chain of nodes (type, label, exact value, exact span, outermost first), the payload indicators beneath it and the flattened text; the real scan tree and flatten() are judged against them",
-        text="20 layer kinds (bare / atob / Base64Decode / FromBase64String base64, lower / upper hex, FromHexString, UTF-16, decimal / hexadecimal XML references, unescape, concatenation, reverse, StrReverse, four replace dialects, caret-escaped cmd, PowerShell byte arrays): every single layer x 8 payload classes, every ordered pair, sampled (thorough: all 6,859) triples, random stacks of height 4..7, at 4 offsets with 4 suffixes.",
+        text="28 layer kinds (bare / atob / Base64Decode / FromBase64String base64, base64 broken into lines of 30 / 50 / 76 characters or with line ends written as character references, lower / upper hex, FromHexString, UTF-16, decimal / hexadecimal XML references, two unescape spellings, concatenation, reverse, StrReverse, four replace dialects, caret-escaped cmd, PowerShell byte arrays in decimal / zero-padded / mixed hexadecimal spelling): every single layer x 8 payload classes, every ordered pair, sampled (thorough: all 6,859) triples, random stacks of height 4..7, at 4 offsets with 4 suffixes.",
         note="one spelling per layer kind; containment of the chain, not equality of whole trees; " + TRUST,
     ),
 })
